@@ -169,7 +169,7 @@ def w1_concurrent_calls(col, rng, cidx, jobref):
     """N threads call one DAG with distinct argument nonces."""
     pid = "C16"
     sp = sched.gen_shape(rng, nmin=3, nmax=8, mc_max=4)
-    sp["is_async"] = False
+    sp["is_async"] = rng.random() < 0.3  # an AsyncDAG shared by threads that each run their own event loop
     # a second, defaulted DAG parameter: concurrent calls pass it or not
     sp["params"] = ["x", "y"]
     sp["defaults"] = {"y": ("D", "y")}
@@ -183,6 +183,15 @@ def w1_concurrent_calls(col, rng, cidx, jobref):
             nd["active"] = ["p", "x"]
     d, _e, plain = S.build_tawazi(sp)
     ids = S.node_ids(sp)
+    if sp["is_async"]:
+        col.counters["c16_concurrent_call_cases_on_an_asyncdag"] += 1
+
+        def invoke(a):
+            return asyncio.run(_await(d, a))
+    else:
+        def invoke(a):
+            return d(*a)
+
     nthreads = rng.choice([2, 4, 8, 16])
     ncalls = rng.randint(1, 3)
     plan_ = {t: [[Sym("arg", cidx, t, k)] + ([Sym("argy", cidx, t, k)] if rng.random() < 0.5 else []) for k in range(ncalls)] for t in range(nthreads)}
@@ -204,7 +213,7 @@ def w1_concurrent_calls(col, rng, cidx, jobref):
         start.wait()
         for k, a in enumerate(plan_[t]):
             opid = "%d.%d.%d" % (cidx, t, k)
-            r = run_op_id("call", lambda: d(*a), opid)
+            r = run_op_id("call", lambda: invoke(a), opid)
             with lock:
                 calls.setdefault(me, []).append((opid, a, refs[t][k], r))
 
@@ -242,8 +251,8 @@ def w1_concurrent_calls(col, rng, cidx, jobref):
     a_after = [Sym("arg", cidx, "after")]
     ref_after = S.run_reference(sp, a_after, plain)
     B.reset_log()
-    r_after = probes.run_op("call_after_concurrent_calls", lambda: d(*a_after))
-    r_missing = probes.run_op("call_without_required_argument", lambda: d())
+    r_after = probes.run_op("call_after_concurrent_calls", lambda: invoke(a_after))
+    r_missing = probes.run_op("call_without_required_argument", lambda: invoke([]))
     col.counters["c16_calls_after_concurrent_calls"] += 1
     if ref_after[0] == "ok" and (r_after[0] != "ok" or not same(ref_after[1].result, r_after[1])):
         col.violation(pid, "dag_state_changed_by_concurrent_calls", dict(
